@@ -8,7 +8,7 @@ from . import c01, campaign, engine, fmt
 
 LEVEL = 'proof'
 PID = 'C03'
-WEIGHTS = {'rect': 0.2, 'oct': 0.25, 'share': 0.1, 'selfop': 0.05, 'lat': 0.1, 'gp': 0.1, 'degen': 0.1, 'ulp': 0.1}
+WEIGHTS = {'rect': 0.2, 'oct': 0.25, 'share': 0.1, 'selfop': 0.05, 'lat': 0.1, 'gp': 0.1, 'degen': 0.1, 'ulp': 0.1, 'boxes': 0.05, 'straddle': 0.05, 'fan': 0.03, 'sliver': 0.03, 'near64': 0.04}
 
 
 def big_case(nrect, op, prec=64):
@@ -37,7 +37,7 @@ def run(rep, tier, seed):
     c01.proof_part(rep, PID, tier)
     npairs = 250 if tier == 'quick' else 5000
     cases64 = campaign.make_cases(rng, npairs, WEIGHTS, prec=64, prefix='a')
-    cases32 = campaign.make_cases(rng, npairs // 2, {'rect': 0.3, 'oct': 0.3, 'degen': 0.15, 'gp': 0.15, 'lat': 0.1}, prec=32, prefix='s')
+    cases32 = campaign.make_cases(rng, npairs // 2, {'rect': 0.3, 'oct': 0.3, 'degen': 0.15, 'gp': 0.15, 'lat': 0.1, 'near': 0.08, 'fan': 0.05}, prec=32, prefix='s')
     cases = cases64 + cases32
     rep.log('%d cases x 2 profiles' % len(cases))
     allouts = {}
@@ -81,6 +81,21 @@ def run(rep, tier, seed):
         if r[0] != 'ok':
             rep.violation('C03: %s on a large valid input (%d edges)' % (r[0], c.n_edges()),
                           {'generator': 'c03.big_case / comb_case', 'case_id': c.cid, 'edges': c.n_edges(), 'outcome': repr(r)[:300]})
+    # early-break operations that leave a chain-shaped status behind (child processes: an abort must not take the check down)
+    from .c18 import run_child
+    nrect = 150000 if tier == 'quick' else 400000
+    stack_scen = [('boolean-int', nrect, 'thread'), ('boolean-intdesc', nrect, 'thread'), ('boolean-intmix', nrect, 'thread'),
+                  ('boolean-dif', nrect, 'main'), ('boolean-intdesc', 4 * nrect, 'main')]
+    from concurrent.futures import ThreadPoolExecutor
+    with ThreadPoolExecutor(max_workers=5) as ex:
+        sres = list(ex.map(run_child, stack_scen))
+    rep.coverage['early_break_scenarios'] = {'%s n=%d' % (s[0], s[1]): r[0] for s, r in zip(stack_scen, sres)}
+    for s, r in zip(stack_scen, sres):
+        if r[0] != 0:
+            rep.violation('C03: the operation %s on %d rectangles (valid input, %d edges) ended with status %s %s'
+                          % (s[0], s[1], 4 * s[1] + 4, r[0], r[2][:120]),
+                          {'scenario': s[0], 'n': s[1], 'exit': r[0], 'stderr': r[2],
+                           'replay_cmd': 'harness/target/release/stackchild %s %d %s; echo $?' % s})
     rep.log('large inputs: %s in %.1fs' % ({c.cid: bigres[c.cid][0] for c in big}, time.time() - t0))
     outs = allouts['r']
     c01.fill_coverage(rep, cases, outs, cnt_total, 'Every case is run in the release and the dev (debug assertions, overflow '
